@@ -23,7 +23,9 @@ def extra_events():
     return [{"e": "op", "op": o, "k": "", "v": [], "exp": 0, "nr": False, "cas": 0, "delta": 0, "keys": [], "items": []}
             for o in ("set-strval", "set-intval", "set-ukey", "get-ukey", "set-flags", "touch-kw", "gat-kw", "get-many-empty",
                       "set-empty", "getitem-empty", "setitem", "getitem", "delitem", "getitem-miss", "set-none", "get-none",
-                      "set-2char", "get-2char", "get-2byte", "gets-kwdefaults-miss", "gats-kwdefaults-miss", "incr-kwkey")]
+                      "set-2char", "get-2char", "get-2byte", "gets-kwdefaults-miss", "gats-kwdefaults-miss", "incr-kwkey",
+                      "append-exp-flags", "prepend-exp-flags", "set-tupleval", "get-tuple-default", "set-prefix-alias", "get-prefix-alias",
+                      "get-many-prefix-alias", "delete-many-absent-first")]
 
 
 def configs(tier, rnd):
